@@ -167,7 +167,7 @@ func reproduced(rf *replayFile, fails []string) bool {
 				return true
 			}
 		case "lock":
-			if strings.HasPrefix(f, "replay.timeout") || strings.HasSuffix(f, "lock_balance") || strings.HasSuffix(f, "lock_released") {
+			if strings.HasPrefix(f, "replay.timeout") || strings.Contains(f, "lock_") || strings.Contains(f, "keeps_serving") {
 				return true
 			}
 		}
